@@ -79,6 +79,14 @@ func (w *World) ApplyAPI(call string) error {
 		if err := w.Mgr.UpdateTag(name, manager.UpdateTagOperationSetConverter(cs)); err != nil {
 			res = "error: " + err.Error()
 		}
+	case "config":
+		if err := w.Mgr.SetConfig(manager.Config{AutoInsertLimitToQuery: arg == "on"}); err != nil {
+			res = "error: " + err.Error()
+		}
+	case "webhook":
+		if err := w.Mgr.AddPcapProcessorWebhook(arg); err != nil {
+			res = "error: " + err.Error()
+		}
 	case "view.open":
 		v := w.Mgr.GetView()
 		hv := &HeldView{Name: arg, View: &v, OpenedAt: len(w.Events)}
